@@ -99,24 +99,26 @@ type adminRes struct {
 	name     string
 	returned bool
 	err      error
+	early    string
 }
 
 type srvWorld struct {
-	sc        SrvScenario
-	x         *h.Exec
-	srv       *smtp.Server
-	be        *h.Backend
-	log       *h.LogBuf
-	ln        *fakeListener
-	conns     []*connCtl
-	nAccept   int
-	serveDone bool
-	serveErr  error
-	admin     []*adminRes
-	nAdmin    int
-	cancel    context.CancelFunc
-	ctx       context.Context
-	permGiven bool
+	sc            SrvScenario
+	x             *h.Exec
+	srv           *smtp.Server
+	be            *h.Backend
+	log           *h.LogBuf
+	ln            *fakeListener
+	conns         []*connCtl
+	nAccept       int
+	serveDone     bool
+	serveErr      error
+	admin         []*adminRes
+	nAdmin        int
+	cancel        context.CancelFunc
+	ctx           context.Context
+	permGiven     bool
+	lnClosedByApp bool
 }
 
 func (w *srvWorld) Start(x *h.Exec) {
@@ -218,9 +220,28 @@ func (w *srvWorld) Events() []h.SchedEvent {
 			case "close", "close2":
 				go func() { r.err = w.srv.Close(); r.returned = true }()
 			case "shutdown", "shutdown2":
-				go func() { r.err = w.srv.Shutdown(w.ctx); r.returned = true }()
+				go func() {
+					r.err = w.srv.Shutdown(w.ctx)
+					// Shutdown may only come back once every connection has finished, unless the context
+					// is done or the server was already stopped
+					if r.err != smtp.ErrServerClosed && w.ctx.Err() == nil {
+						for ci, c := range w.conns {
+							// "active" = being served (greeted). A connection that Accept had just returned when
+							// Shutdown ran is never served; it is closed right after, possibly after Shutdown returned.
+							if !c.server.IsClosed() && c.client.In.Total > 0 {
+								r.early = fmt.Sprintf("Shutdown returned %v while connection %d was still open and the context was live", r.err, ci)
+							}
+						}
+					}
+					r.returned = true
+				}()
 			case "cancel":
 				w.cancel()
+				r.returned = true
+			case "lnclose":
+				// the application closes the listener itself (Serve returns; the connections go on)
+				w.ln.Close()
+				w.lnClosedByApp = true
 				r.returned = true
 			}
 		}})
@@ -293,13 +314,21 @@ func (w *srvWorld) Finish(x *h.Exec) *h.Finding {
 		wantServeErr = errPermAccept
 	}
 	// a permanent error that arrives after Close/Shutdown is reported as nil (the server was closed)
+	for _, a := range w.admin {
+		if a.early != "" {
+			return h.F("c20-shutdown-returned-early", "%s: %s", desc, a.early)
+		}
+	}
+	if w.lnClosedByApp && w.serveErr != nil {
+		wantServeErr = w.serveErr // the application closed the listener: Serve reports whatever Accept said
+	}
 	if w.serveErr != wantServeErr && !(w.permGiven && w.serveErr == nil && anyStop) {
 		return h.F("c20-serve-result", "%s: Serve returned %v, want %v", desc, w.serveErr, wantServeErr)
 	}
 	// exactly one stop call wins (whichever got there first); every other one reports ErrServerClosed
 	winners := 0
 	for _, a := range w.admin {
-		if a.name == "cancel" {
+		if a.name == "cancel" || a.name == "lnclose" {
 			continue
 		}
 		if !a.returned {
@@ -310,7 +339,7 @@ func (w *srvWorld) Finish(x *h.Exec) *h.Finding {
 		}
 		winners++
 		if strings.HasPrefix(a.name, "shutdown") {
-			if a.err != nil && a.err != context.Canceled {
+			if a.err != nil && a.err != context.Canceled && !(w.lnClosedByApp && errors.Is(a.err, net.ErrClosed)) {
 				return h.F("c20-shutdown-result", "%s: Shutdown returned %v", desc, a.err)
 			}
 		} else if a.err != nil {
@@ -319,7 +348,7 @@ func (w *srvWorld) Finish(x *h.Exec) *h.Finding {
 	}
 	nStops := 0
 	for _, a := range w.admin {
-		if a.name != "cancel" {
+		if a.name != "cancel" && a.name != "lnclose" {
 			nStops++
 		}
 	}
@@ -420,6 +449,10 @@ func c20Scenarios(tier string) []SrvScenario {
 	out = append(out, SrvScenario{Name: "F3-shutdown-2conns", Accepts: []string{"conn", "conn"}, Clients: [][]string{{"EHLO c1.example\r\n", "QUIT\r\n"}, {"EHLO c2.example\r\n", "<EOF>"}}, Admin: []string{"shutdown", "close2"}})
 	out = append(out, SrvScenario{Name: "F3-close-then-shutdown", Accepts: []string{"conn"}, Clients: [][]string{{"EHLO c.example\r\n", "NOOP\r\n"}}, Admin: []string{"close", "shutdown2", "close2"}})
 	out = append(out, SrvScenario{Name: "F3-shutdown-mid-bdat", Accepts: []string{"conn"}, Clients: [][]string{{chunk, "BDAT 3 LAST\r\nabc", "QUIT\r\n"}}, Admin: []string{"shutdown", "cancel"}, Gates: []string{"return"}, Chunked: true})
+	// the application closes the listener itself, then shuts down with a connection still active
+	out = append(out, SrvScenario{Name: "F3-app-closed-listener-then-shutdown", Accepts: []string{"conn"}, Clients: [][]string{{"EHLO c.example\r\n", "NOOP\r\n", "QUIT\r\n"}}, Admin: []string{"lnclose", "shutdown"}})
+	// two unfinished chunked transfers in a row on one connection
+	out = append(out, SrvScenario{Name: "F1-two-aborted-transfers", Accepts: []string{"conn"}, Clients: [][]string{{chunk, "RSET\r\n", "MAIL FROM:<ok@a.example>\r\nRCPT TO:<ok1@b.example>\r\nBDAT 5\r\nagain", "RSET\r\n", "QUIT\r\n"}}, Admin: []string{"close"}, Gates: []string{"return"}, Chunked: true})
 	// F7: two connections at once, each in the middle of a chunked transfer with a slow backend, Close / Shutdown at any point
 	out = append(out, SrvScenario{Name: "F7-two-conns-mid-bdat-close", Accepts: []string{"conn", "conn"}, Clients: [][]string{{chunk, "BDAT 3 LAST\r\nabc"}, {chunk, "RSET\r\n"}}, Admin: []string{"close"}, Gates: []string{"return"}, Chunked: true})
 	out = append(out, SrvScenario{Name: "F7-two-conns-mid-bdat-shutdown", Accepts: []string{"conn", "conn"}, Clients: [][]string{{chunk, "QUIT\r\n"}, {chunk, "<EOF>"}}, Admin: []string{"shutdown", "cancel"}, Gates: []string{"return"}, Chunked: true})
@@ -428,10 +461,10 @@ func c20Scenarios(tier string) []SrvScenario {
 	// F6: Close while the command loop is inside an envelope callback (NewSession, Mail, Rcpt are scheduling points)
 	for _, end := range []string{"QUIT\r\n", "<EOF>"} {
 		out = append(out, SrvScenario{Name: "F6-close-during-callbacks-" + strings.TrimSpace(strings.ReplaceAll(end, "<EOF>", "disconnect")), Accepts: []string{"conn"},
-			Clients: [][]string{{"EHLO c.example\r\n", "MAIL FROM:<ok@a.example>\r\nRCPT TO:<ok1@b.example>\r\n", end}}, Admin: []string{"close"}, Gates: []string{"NewSession", "Mail", "Rcpt"}})
+			Clients: [][]string{{"EHLO c.example\r\n", "MAIL FROM:<ok@a.example>\r\nRCPT TO:<ok1@b.example>\r\n", end}}, Admin: []string{"close"}, Gates: []string{"NewSession", "Mail", "Rcpt", "Logout"}})
 	}
 	out = append(out, SrvScenario{Name: "F6-shutdown-during-callbacks", Accepts: []string{"conn"},
-		Clients: [][]string{{"EHLO c.example\r\n", "MAIL FROM:<ok@a.example>\r\n", "QUIT\r\n"}}, Admin: []string{"shutdown", "close2"}, Gates: []string{"NewSession", "Mail"}})
+		Clients: [][]string{{"EHLO c.example\r\n", "MAIL FROM:<ok@a.example>\r\n", "QUIT\r\n"}}, Admin: []string{"shutdown", "close2"}, Gates: []string{"NewSession", "Mail", "Logout"}})
 	// F4: all sequences of Accept answers
 	maxLen := 4
 	if tier == "thorough" {
